@@ -15,6 +15,8 @@ set_option linter.unusedVariables false
 namespace Fsic.C10
 open Fsic Fsic.Container
 
+variable {cfg : Cfg}
+
 /-! ## Python slices -/
 
 /-- **Python slice semantics, positive step, all bounds** (`None`, negative, beyond either end): with
@@ -137,7 +139,7 @@ theorem label_get {s : Store} {name : Name} {ser : Series} {k p : Nat} (hg : s.g
 theorem label_set {s : Store} {name : Name} {ser : Series} {k p : Nat} {v w : Val}
     (hg : s.get name = some ser) (hw : ser.wf s.n) (hl : locate s k = .pos p) (hp : p < s.n)
     (hc : conv ser.dtype v = .ok w) :
-    step s (.setLabel name k (.scalar v)) = (s.put name { ser with data := setAt ser.data p w }, .ok) := by
+    step cfg s (.setLabel name k (.scalar v)) = (s.put name { ser with data := setAt ser.data p w }, .ok) := by
   simp only [step, setLabel, hl, hg, assignLoc, firstDim_wf hw, hp, if_true]
   rw [assignAt_scalar hc, viewPos_wf hw]
   rfl
@@ -146,8 +148,8 @@ theorem label_set {s : Store} {name : Name} {ser : Series} {k p : Nat} {v w : Va
 theorem label_set_frame {s : Store} {name : Name} {ser : Series} {k p : Nat} {v w : Val}
     (hg : s.get name = some ser) (hw : ser.wf s.n) (hl : locate s k = .pos p) (hp : p < s.n)
     (hc : conv ser.dtype v = .ok w) :
-    (∀ other, other ≠ name → (step s (.setLabel name k (.scalar v))).1.get other = s.get other) ∧
-    (∃ ser', (step s (.setLabel name k (.scalar v))).1.get name = some ser' ∧ ser'.dtype = ser.dtype ∧
+    (∀ other, other ≠ name → (step cfg s (.setLabel name k (.scalar v))).1.get other = s.get other) ∧
+    (∃ ser', (step cfg s (.setLabel name k (.scalar v))).1.get name = some ser' ∧ ser'.dtype = ser.dtype ∧
       ser'.shape = ser.shape ∧ pick ser'.data p = w ∧ ∀ j, j ≠ p → pick ser'.data j = pick ser.data j) := by
   rw [label_set hg hw hl hp hc]
   refine ⟨fun other ho => get_put_other ho, ⟨_, get_put_same hg, rfl, rfl, ?_, fun j hj => ?_⟩⟩
@@ -158,11 +160,11 @@ theorem label_set_frame {s : Store} {name : Name} {ser : Series} {k p : Nat} {v 
     raise and leave the store exactly as it was — for a single label and for either end of a label slice. -/
 theorem missing_label_keyerror {s : Store} {k : Nat} (hl : locate s k = .missing) (name : Name) (v : Operand) :
     getLabel s name k = .raised .key ∧
-    step s (.setLabel name k v) = (s, .raised .key) ∧
+    step cfg s (.setLabel name k v) = (s, .raised .key) ∧
     (∀ kb st, getLabelSlice s name (some k) (some kb) st = .raised .key) ∧
-    (∀ kb st, step s (.setLabelSlice name (some k) (some kb) st v) = (s, .raised .key)) ∧
+    (∀ kb st, step cfg s (.setLabelSlice name (some k) (some kb) st v) = (s, .raised .key)) ∧
     (∀ ka st, locate s ka ≠ .missing → getLabelSlice s name (some ka) (some k) st = .raised .key) ∧
-    (∀ ka st, locate s ka ≠ .missing → step s (.setLabelSlice name (some ka) (some k) st v) = (s, .raised .key)) := by
+    (∀ ka st, locate s ka ≠ .missing → step cfg s (.setLabelSlice name (some ka) (some k) st v) = (s, .raised .key)) := by
   have hres1 : ∀ kb st, resolveSlice s (some k) (some kb) st = .error .key := by
     intro kb st; simp [resolveSlice, hl, Loc.start?]
   have hres2 : ∀ ka st, locate s ka ≠ .missing → resolveSlice s (some ka) (some k) st = .error .key := by
@@ -190,9 +192,9 @@ theorem missing_label_keyerror {s : Store} {k : Nat} (hl : locate s k = .missing
 /-- For list-like spans "not in the span" is literal. -/
 theorem missing_label_keyerror_seq {s : Store} (hk : s.spanKind = .seq) {k : Nat} (hm : k ∉ s.span)
     (name : Name) (v : Operand) :
-    getLabel s name k = .raised .key ∧ step s (.setLabel name k v) = (s, .raised .key) :=
-  ⟨(missing_label_keyerror ((locate_seq_missing hk k).mpr hm) name v).1,
-   (missing_label_keyerror ((locate_seq_missing hk k).mpr hm) name v).2.1⟩
+    getLabel s name k = .raised .key ∧ step cfg s (.setLabel name k v) = (s, .raised .key) :=
+  ⟨(missing_label_keyerror (cfg := cfg) ((locate_seq_missing hk k).mpr hm) name v).1,
+   (missing_label_keyerror (cfg := cfg) ((locate_seq_missing hk k).mpr hm) name v).2.1⟩
 
 /-! ## Label slices -/
 
@@ -285,7 +287,7 @@ theorem label_slice_get {s : Store} {name : Name} {ser : Series} (hg : s.get nam
 theorem label_slice_set {s : Store} {name : Name} {ser : Series} (hg : s.get name = some ser) (hw : ser.wf s.n)
     {a b : Option Nat} {st : Option Int} {ps : List Nat} (hps : labelSlicePositions s a b st = .ok ps)
     {v w : Val} (hc : conv ser.dtype v = .ok w) :
-    step s (.setLabelSlice name a b st (.scalar v)) =
+    step cfg s (.setLabelSlice name a b st (.scalar v)) =
       (s.put name { ser with data := writeRaw ser.data (ps.map fun k => (k, w)) }, .ok) := by
   unfold labelSlicePositions at hps
   simp only [step, setLabelSlice]
@@ -347,19 +349,38 @@ theorem access_paths_agree_attribute_partial {s : Store} {name : Name} (hi : nam
     variable (`obj['P']` reads 7s) but `obj.P` still returns the stale attribute.  Reproduced on the real code by
     the oracle (key `attribute-shadows-variable`). -/
 theorem access_paths_agree_attribute_false_at_witness :
-    (let s := run (init [0, 1, 2] .seq false)
+    (let s := run Cfg.shipped (init [0, 1, 2] .seq false)
         [.setAttr "P" (.scalar (.i 5)) [], .addVariable "P" (.scalar (.i 1)) none, .setAttr "P" (.scalar (.i 7)) []]
      (getItem s "P", getAttr s "P")) = (.array [3] [.i 7, .i 7, .i 7], .other) := by
+  decide
+
+/-- With the candidate fix (`add_variable` also checks `_attributes`; `Cfg.current.addVarChecksAttrs` is read off
+    the code on every run) the shadowing cannot be set up: creating a variable under the name of an existing
+    attribute raises DuplicateNameError and changes nothing. -/
+theorem add_variable_refuses_attribute_name (hc : cfg.addVarChecksAttrs = true) {s : Store} {name : Name}
+    (ha : s.attrs.contains name = true) (v : Operand) (dtype : Option Kind) :
+    step cfg s (.addVariable name v dtype) = (s, .raised .duplicateName) := by
+  simp only [step, addVariable]
+  by_cases hi : s.index.contains name = true
+  · rw [if_pos hi]
+  · rw [if_neg hi, if_pos (by rw [hc, ha]; rfl)]
+
+/-- Non-vacuity: the witness history under the fixed configuration — the variable is refused, `obj.P` and
+    `obj['P']` cannot disagree because there is no variable `P`. -/
+example :
+    (let s := run Cfg.fixed (init [0, 1, 2] .seq false)
+        [.setAttr "P" (.scalar (.i 5)) [], .addVariable "P" (.scalar (.i 1)) none, .setAttr "P" (.scalar (.i 7)) []]
+     (getItem s "P", getAttr s "P", s.index)) = (.raised .key, .other, []) := by
   decide
 
 /-- **Write by label, read by every path.** -/
 theorem access_paths_agree_label_write {s : Store} {name : Name} {ser : Series} {k p : Nat} {v w : Val}
     (hg : s.get name = some ser) (hw : ser.wf s.n) (hl : locate s k = .pos p) (hp : p < s.n)
     (hc : conv ser.dtype v = .ok w) :
-    getLabel (step s (.setLabel name k (.scalar v))).1 name k = .elem w ∧
-    getPos (step s (.setLabel name k (.scalar v))).1 name (p : Int) = .elem w ∧
-    getItem (step s (.setLabel name k (.scalar v))).1 name = .array [s.n] (setAt ser.data p w) ∧
-    getLabelSlice (step s (.setLabel name k (.scalar v))).1 name (some k) (some k) none = .array [1] [w] := by
+    getLabel (step cfg s (.setLabel name k (.scalar v))).1 name k = .elem w ∧
+    getPos (step cfg s (.setLabel name k (.scalar v))).1 name (p : Int) = .elem w ∧
+    getItem (step cfg s (.setLabel name k (.scalar v))).1 name = .array [s.n] (setAt ser.data p w) ∧
+    getLabelSlice (step cfg s (.setLabel name k (.scalar v))).1 name (some k) (some k) none = .array [1] [w] := by
   rw [label_set hg hw hl hp hc]
   have hg' : (s.put name { ser with data := setAt ser.data p w }).get name
       = some { ser with data := setAt ser.data p w } := get_put_same hg
@@ -375,9 +396,9 @@ theorem access_paths_agree_label_write {s : Store} {name : Name} {ser : Series} 
 theorem access_paths_agree_pos_write {s : Store} {name : Name} {ser : Series} {k p : Nat} {i : Int} {v w : Val}
     (hg : s.get name = some ser) (hw : ser.wf s.n) (hl : locate s k = .pos p) (hp : p < s.n)
     (hi : pyIndex s.n i = some p) (hc : conv ser.dtype v = .ok w) :
-    (step s (.setPos name i (.scalar v))).2 = .ok ∧
-    getLabel (step s (.setPos name i (.scalar v))).1 name k = .elem w := by
-  have hstep : step s (.setPos name i (.scalar v)) = (s.put name { ser with data := setAt ser.data p w }, .ok) := by
+    (step cfg s (.setPos name i (.scalar v))).2 = .ok ∧
+    getLabel (step cfg s (.setPos name i (.scalar v))).1 name k = .elem w := by
+  have hstep : step cfg s (.setPos name i (.scalar v)) = (s.put name { ser with data := setAt ser.data p w }, .ok) := by
     simp only [step, setPos, hg, firstDim_wf hw, hi]
     rw [assignAt_scalar hc, viewPos_wf hw]
     rfl
@@ -394,10 +415,10 @@ theorem access_paths_agree_pos_write {s : Store} {name : Name} {ser : Series} {k
 theorem access_paths_agree_whole_write {s : Store} {name : Name} {ser : Series} {k p : Nat} {v w : Val}
     (hg : s.get name = some ser) (hw : ser.wf s.n) (hl : locate s k = .pos p) (hp : p < s.n)
     (hc : conv ser.dtype v = .ok w) :
-    (step s (.setItem name (.scalar v))).2 = .ok ∧
-    getLabel (step s (.setItem name (.scalar v))).1 name k = .elem w ∧
-    step s (.setAttr name (.scalar v) []) = step s (.setItem name (.scalar v)) := by
-  have hstep : step s (.setItem name (.scalar v)) =
+    (step cfg s (.setItem name (.scalar v))).2 = .ok ∧
+    getLabel (step cfg s (.setItem name (.scalar v))).1 name k = .elem w ∧
+    step cfg s (.setAttr name (.scalar v) []) = step cfg s (.setItem name (.scalar v)) := by
+  have hstep : step cfg s (.setItem name (.scalar v)) =
       (s.put name { ser with data := writeRaw ser.data ((List.range s.n).map fun j => (j, w)) }, .ok) := by
     simp only [step, setItem, hg]
     rw [assignWhole_nonseq (by rfl), assignAt_scalar hc, viewAll_wf hw]
@@ -414,7 +435,7 @@ theorem access_paths_agree_whole_write {s : Store} {name : Name} {ser : Series} 
     exact this
 where
   C09_helper (s : Store) (name : Name) (ser : Series) (v : Val) (hg : s.get name = some ser) :
-      step s (.setAttr name (.scalar v) []) = step s (.setItem name (.scalar v)) := by
+      step cfg s (.setAttr name (.scalar v) []) = step cfg s (.setItem name (.scalar v)) := by
     have hmem : name ∈ s.index := index_of_get hg
     simp [step, setAttr, setItem, strictBlocks, hmem, hg]
 
@@ -423,7 +444,7 @@ theorem access_paths_agree_slice_write {s : Store} {name : Name} {ser : Series} 
     (hw : ser.wf s.n) {a b : Option Nat} {st : Option Int} {ps : List Nat}
     (hps : labelSlicePositions s a b st = .ok ps) {v w : Val} (hc : conv ser.dtype v = .ok w)
     {j : Nat} (hj : j < s.n) :
-    getPos (step s (.setLabelSlice name a b st (.scalar v))).1 name (j : Int) =
+    getPos (step cfg s (.setLabelSlice name a b st (.scalar v))).1 name (j : Int) =
       .elem (if j ∈ ps then w else pick ser.data j) := by
   rw [label_slice_set hg hw hps hc]
   have hlen : (writeRaw ser.data (ps.map fun k => (k, w))).length = ser.data.length := writeRaw_length _ _
@@ -440,7 +461,7 @@ theorem access_paths_agree_slice_write {s : Store} {name : Name} {ser : Series} 
 /-- Non-vacuity of the whole chain on a concrete container: span classes `[0,1,2,3]`, int variable `X`; write 7 by
     label 2, 9 by position -1, 5 through the label slice `0:2:2`; read back through label, position, key, slice. -/
 example :
-    (let s := run (init [0, 1, 2, 3] .seq false)
+    (let s := run Cfg.shipped (init [0, 1, 2, 3] .seq false)
         [.addVariable "X" (.list [.i 10, .i 20, .i 30, .i 40]) none, .setLabel "X" 2 (.scalar (.i 7)),
          .setPos "X" (-1) (.scalar (.i 9)), .setLabelSlice "X" (some 0) (some 2) (some 2) (.scalar (.i 5))]
      (getItem s "X", getLabel s "X" 3, getPos s "X" 2, getLabelSlice s "X" (some 1) none none, getLabel s "X" 9))
